@@ -8,7 +8,7 @@ from . import common as C
 from . import debiasers, realruns as R
 
 GEN_FILES = ["GenScalars", "GenUtils"]
-TRUSTED = ["C02: ISIMIP (additive) is searched on the implementation, not proved; ScaledDistributionMapping (absolute) is proved on the hand model Model/SDM.v (tied by correspondence K15), CDFt / non-parametric QM / QDM on the regenerated per-window methods",
+TRUSTED = ["C02: ISIMIP (additive): steps 3, 5 and 7 are proved on hand models (Model/IsimipStep3.v, Model/IsimipStep5.v; correspondences K21, K17), the fitted-distribution branch of step 6 and the pipeline as a whole are searched on the implementation; ScaledDistributionMapping (absolute) is proved on the hand model Model/SDM.v (tied by correspondence K15), CDFt / non-parametric QM / QDM on the regenerated per-window methods",
            "C02: SciPy's norm.fit is shift-equivariant (assumption about SciPy, exercised by the search)"]
 
 def correspondence(res, tier, seed):
